@@ -267,6 +267,22 @@ pub fn c02_value(ops: &TypeOps, case: &Case, suffix: &[u8], rep: &mut Report, pr
 			}
 		},
 	}
+	// (d) a reader that hands the data out in short chunks, through IoReader
+	{
+		let mut r = parity_scale_codec::IoReader(monitor::spy::ShortReader::new(&input, enc.len() as u64 ^ 0x51, 1 + enc.len() % 7));
+		match catch(|| (d.dynamic)(&mut r)) {
+			Err(p) => fail(rep, "roundtrip-panic", format!("decode through IoReader panicked: {p}")),
+			Ok(None) => fail(rep, "roundtrip-reject:io-reader", "decoding its own encoding through IoReader over a short-chunk reader failed".into()),
+			Ok(Some(v)) => {
+				rep.count("io_reader_roundtrips");
+				if !same_val(ops, &case.val, &v) {
+					fail(rep, "roundtrip-value:io-reader", format!("IoReader decode returned a different value {}", show_val(&v)));
+				} else if r.0.pos != enc.len() {
+					fail(rep, "roundtrip-consumed:io-reader", format!("IoReader decode consumed {} bytes of a {}-byte encoding", r.0.pos, enc.len()));
+				}
+			},
+		}
+	}
 	if rep.want_sample() && enc.len() >= 2 {
 		rep.sample(sample_json(ops, "roundtrip", &enc, &format!("suffix {} bytes", suffix.len())));
 	}
